@@ -540,7 +540,7 @@ type c12CtxResult struct {
 	Skip    string
 	Err     error
 	Wall    float64
-	Clean   bool // rejected, and the verifier blamed exactly the presenting party
+	Clean   bool       // rejected, and the verifier blamed exactly the presenting party
 	sess    *c12CtxSrc // the session the row ran in (its traffic, as SENT, is honest: replacements are made at delivery)
 }
 
@@ -707,10 +707,10 @@ type c12CtxBigOut struct {
 // c12CtxRecomp: the rounds' context recomputed as ssid(documented inputs) || bytes TLC printed; the real proofs on the wire
 // verified under it.
 type c12CtxRecomp struct {
-	Tried      int   `json:"tried"`
-	Match      []int `json:"indices_whose_proof_verifies_under_the_models_context"`
-	Mismatch   []int `json:"indices_whose_proof_does_not"`
-	CrossCheck bool  `json:"a_proof_fails_under_another_indexs_context"`
+	Tried      int    `json:"tried"`
+	Match      []int  `json:"indices_whose_proof_verifies_under_the_models_context"`
+	Mismatch   []int  `json:"indices_whose_proof_does_not"`
+	CrossCheck bool   `json:"a_proof_fails_under_another_indexs_context"`
 	Note       string `json:"note,omitempty"`
 }
 
@@ -827,7 +827,7 @@ func c12CtxRunBig(rows []c12CtxRow, enc map[int][]byte, seed int64, baseline boo
 	}
 	// verifiers: indices 10, 11, ... (no index class, nobody's prover or presenter)
 	hooks := map[int]*c12CtxHook{} // by verifier G
-	vG := map[int]int{}           // row -> verifier G
+	vG := map[int]int{}            // row -> verifier G
 	next := 10
 	for k, r := range rows {
 		for next == r.I || next == r.J {
@@ -1098,7 +1098,9 @@ func c12CtxVioKey(res *c12CtxResult) string {
 	case "ssid":
 		return fmt.Sprintf("C12:context:%s:%s:%s:other-session:%s", r.Proto, r.Site, what, r.Vary)
 	}
-	return fmt.Sprintf("C12:context:%s:%s:%s:index:%d->%d", r.Proto, r.Site, what, r.I, r.J)
+	// the class of the index pair = the weakened designs of the model that would accept it (none: any two indices;
+	// lowbyte / low7: indices congruent modulo 256 / 128)
+	return fmt.Sprintf("C12:context:%s:%s:%s:index:%s", r.Proto, r.Site, what, strings.Join(r.Weak, "+"))
 }
 
 func c12CtxJudge(ctx *core.Ctx, res *c12CtxResult, rc *c12CtxRecomp) bool {
@@ -1326,14 +1328,14 @@ func c12RoundsContext(ctx *core.Ctx, cov *core.Cov) *c12CtxReport {
 		}
 	}
 	cov.Set("context", map[string]any{
-		"rows": rowList,
-		"tlc":                      map[string]any{"module": "ProofContext", "distinct": m.Res.Distinct, "generated": m.Res.Generated, "wall_s": m.Res.Wall, "invariants": "ReplayRejected; ASSUME DesignInjective, DiscriminatingEnc, DiscriminatingDeriv, CatalogueTellsApart"},
-		"catalogue_rows":           len(m.Rows),
-		"rows_executed_on_rounds":  rep.Executed,
-		"outcomes_by_site":         perSite,
-		"calibration":              rep.Calib,
-		"large_committee":          map[string]any{"parties": c12CtxBigN(plan.big), "rows": len(plan.big), "wall_s": rep.Big.Wall, "phase_marks_s": rep.Big.Phases, "baseline_verifier": rep.Big.Baseline, "context_recomputed": rc},
-		"weakened_designs_told_apart_by_executed_rows": weakCovered,
+		"rows":                    rowList,
+		"tlc":                     map[string]any{"module": "ProofContext", "distinct": m.Res.Distinct, "generated": m.Res.Generated, "wall_s": m.Res.Wall, "invariants": "ReplayRejected; ASSUME DesignInjective, DiscriminatingEnc, DiscriminatingDeriv, CatalogueTellsApart"},
+		"catalogue_rows":          len(m.Rows),
+		"rows_executed_on_rounds": rep.Executed,
+		"outcomes_by_site":        perSite,
+		"calibration":             rep.Calib,
+		"large_committee":         map[string]any{"parties": c12CtxBigN(plan.big), "rows": len(plan.big), "wall_s": rep.Big.Wall, "phase_marks_s": rep.Big.Phases, "baseline_verifier": rep.Big.Baseline, "context_recomputed": rc},
+		"weakened_designs_told_apart_by_executed_rows":     weakCovered,
 		"weakened_designs_no_executable_committee_reaches": unreached,
 		"drift":  rep.Drift,
 		"wall_s": time.Since(t0).Seconds(),
